@@ -113,6 +113,7 @@ class Subroutine(ProgramUnit):
 
         # Re-register all encapulated member procedures
         for member in self.members:
+            member._reset_parent(self)
             self.symbol_attrs[member.name] = SymbolAttributes(ProcedureType(procedure=member))
 
         # Ensure that we are attaching all symbols to the newly create ``self``.
